@@ -11,6 +11,16 @@ from .c03 import rule_objective_construction
 from .anchors import anchors
 
 
+def _grown_by_one(v, t):
+    """`np.append(T, value..)` / `np.insert(T, position, value..)` re-bound to T itself: returns the value expression, else None."""
+    if isinstance(v, ast.Call) and v.args and ekey(v.args[0]) == ekey(t):
+        if ekey(v.func).endswith("append") and len(v.args) >= 2:
+            return v.args[1]
+        if ekey(v.func).endswith(".insert") and len(v.args) >= 3:
+            return v.args[2]
+    return None
+
+
 def record_fields(eng):
     """The per-point record: union of the fields that change_point writes at its index parameter, that swap_points relocates and
     that add_new_point appends to (three sibling views of the same record; any one of them may be the broken one)."""
@@ -33,7 +43,7 @@ def record_fields(eng):
                 f = _written_field(t, sn)
                 v = node.value
                 moved = (isinstance(t, ast.Subscript) and isinstance(v, ast.Subscript) and ekey(v.value) == ekey(t.value)) or \
-                        (isinstance(t, ast.Attribute) and isinstance(v, ast.Call) and ekey(v.func).endswith("append") and v.args and ekey(v.args[0]) == ekey(t))
+                        (isinstance(t, ast.Attribute) and _grown_by_one(v, t) is not None)
                 if f is not None and moved and f not in out:
                     out.append(f)
     return out
@@ -128,7 +138,7 @@ def rule_parallel_arrays(eng, rep, rule="C17-1.per-point-arrays-move-together"):
                 val = node.value
                 if isinstance(t, ast.Attribute):
                     # whole-array re-binding
-                    if isinstance(val, ast.Call) and ekey(val.func).endswith("append") and val.args and ekey(val.args[0]) == ekey(t):
+                    if _grown_by_one(val, t) is not None:
                         kinds.setdefault("append", {})[f] = "end"
                     elif isinstance(val, ast.Call) and val.args and ekey(val.args[0]) == ekey(t) and _is_append_helper(eng, val):
                         kinds.setdefault("append", {})[f] = "end"       # a local/internal helper that returns a copy with one more entry
@@ -235,7 +245,8 @@ def rule_sample_counts(eng, rep, rule="C17-3.sample-count-is-1-on-replace-and-pl
                         ((ekey(ve.left) == tkey and const_value(ve.right) == 1) or (ekey(ve.right) == tkey and const_value(ve.left) == 1)):
                     rep.ok(rule, site, "nsamples[k] = nsamples[k] + 1 (through a temporary) where the residual is averaged with one new sample")
                     continue
-                lit = const_value(v) == 1 or (isinstance(v, ast.Call) and (ekey(v.func).endswith("append") or _is_append_helper(eng, v)) and len(v.args) > 1 and const_value(v.args[1]) == 1)
+                lit = const_value(v) == 1 or (isinstance(v, ast.Call) and (ekey(v.func).endswith("append") or _is_append_helper(eng, v)) and len(v.args) > 1 and const_value(v.args[1]) == 1) \
+                    or (isinstance(v, ast.Call) and ekey(v.func).endswith(".insert") and len(v.args) > 2 and const_value(v.args[2]) == 1)
                 reloc = isinstance(v, ast.Subscript) and "nsamples" in ekey(v.value)
                 if writes_pts and lit:
                     rep.ok(rule, site, "a replaced / appended point starts with sample count 1")
@@ -471,6 +482,68 @@ def rule_running_mean(eng, rep, rule="C17-8.re-sampled-residual-is-the-arithmeti
     rep.require_count(rule, "residual rows updated from themselves and a new sample", nsites, 1)
 
 
+def rule_new_records_land_inside_the_count(eng, rep, rule="C17-9.a-record-added-to-the-set-is-stored-where-the-point-count-puts-it"):
+    """The per-point arrays are allocated at the capacity of the set (`num_pts` rows); the points held are rows [0, npt()) with npt() = min(capacity, points added
+    so far).  A method that makes the arrays one row longer and counts the new record (`npt_so_far += 1`) must store it in row npt() -- the first unused row.
+    `np.append` puts it behind ALL rows, which is row npt() only when the set is full; while the set is still growing the new record lies outside [0, npt()),
+    a blank row (residual inf) is counted instead and `kopt = npt() - 1` designates that blank row.  Accepted: `np.insert(A, self.npt(), ..)` (position read
+    before the count changes), or an append guarded by a test that the set is full."""
+    from .common import capacity_fields
+    caps = capacity_fields(eng)
+    rec = set(record_fields(eng))
+    model = eng.prog.cls("Model")
+    n = 0
+    for m in sorted(model.methods.values(), key=lambda f: f.qualname):
+        sn = m.posparams[0] if m.posparams else None
+        grows = []
+        for node in eng.prog.own_nodes(m):
+            if isinstance(node, ast.Assign) and len(node.targets) == 1 and isinstance(node.targets[0], ast.Attribute) and node.targets[0].attr in rec \
+                    and isinstance(node.value, ast.Call) and isinstance(node.value.func, ast.Attribute) and node.value.func.attr in ("append", "insert", "vstack", "concatenate", "r_") \
+                    and node.value.args and ekey(node.value.args[0]) == ekey(node.targets[0]):
+                grows.append(node)
+        if not grows:
+            continue
+        cfg = eng.cfg(m)
+        counts = [k for k, d in cfg.g.nodes(data=True) if d["kind"] == "stmt" and isinstance(d["ast"], ast.AugAssign) and isinstance(d["ast"].target, ast.Attribute)
+                  and d["ast"].target.attr == "npt_so_far"]
+        for node in grows:
+            n += 1
+            site = eng.where(m, node)
+            fld = node.targets[0].attr
+            how = node.value.func.attr
+            if how == "insert" and len(node.value.args) >= 2:
+                pos = node.value.args[1]
+                exprs = [pos]
+                if isinstance(pos, ast.Name):
+                    exprs = [cfg.ast_of(d).value for d in cfg.defs_reaching(node, pos.id) if isinstance(cfg.ast_of(d), ast.Assign)]
+                    at = [d for d in cfg.defs_reaching(node, pos.id)]
+                else:
+                    at = [cfg.cfg_node(node)]
+                is_count = bool(exprs) and all(isinstance(e, ast.Call) and isinstance(e.func, ast.Attribute) and e.func.attr == "npt" and not e.args for e in exprs)
+                stale = any(cfg.path_avoiding(c, a, []) is not None for c in counts for a in at)
+                if is_count and not stale:
+                    rep.ok(rule, site, "Model.%s: the new row is inserted at npt(), read before the count is increased" % fld)
+                elif is_count:
+                    rep.bad(rule, site, "%s|insert-position-read-after-the-count-changed|%s" % (m.fid, fld), "the insert position of Model.%s is npt() read after npt_so_far was increased: one row too far" % fld)
+                else:
+                    rep.bad(rule, site, "%s|insert-position-is-not-the-point-count|%s" % (m.fid, fld),
+                            "Model.%s gets its new row at `%s`, not at npt(): the record is not where the point count puts it" % (fld, ekey(pos)))
+                continue
+            # append / stack: behind every allocated row
+            full = False
+            for (_b, a) in guards_of(cfg, cfg.cfg_node(node)):
+                txt = (ekey(a.lhs) if a.lhs is not None else "") + " " + (ekey(a.rhs) if a.rhs is not None else "")
+                if a.op in ("le", "eq") and any(c in txt for c in caps) and ("npt_so_far" in txt or "npt()" in txt):
+                    full = True
+            if full or not counts:
+                rep.ok(rule, site, "Model.%s is appended %s" % (fld, "under a test that the set is full" if full else "by a method that does not count a new point"), nontrivial=full)
+            else:
+                rep.bad(rule, site, "%s|appended-behind-unused-rows|%s" % (m.fid, fld),
+                        "Model.%s grows by np.%s (behind all %s allocated rows) while the method counts the record through npt_so_far: when the set is still growing (npt_so_far < %s) the new "
+                        "record lies outside [0, npt()) and a blank row is counted instead" % (fld, how, "/".join(sorted(caps)), "/".join(sorted(caps))))
+    rep.require_count(rule, "statements that make a per-point array one row longer", n, 3)
+
+
 def run(eng, rep):
     rep.explain("C17 (structural clauses): the per-point record is derived from change_point (fields written at index k); every Model method that relocates, appends, "
                 "replaces or re-samples records must touch all record arrays with one index expression (T4 coherence); sample counts are set to 1 exactly on "
@@ -485,6 +558,7 @@ def run(eng, rep):
     rep.guarded(rule_sample_counts, eng, rep)
     rep.guarded(rule_selection, eng, rep, "C17-4.incumbent-and-final-selection-tables", {"ORDER", "NAN_CAND", "NAN_HOLDER", "NONE_HOLDER"}, "C17")
     rep.guarded(rule_kopt_valid, eng, rep)
+    rep.guarded(rule_new_records_land_inside_the_count, eng, rep)
     rep.guarded(rule_reselection_guard, eng, rep)
     rep.guarded(rule_running_mean, eng, rep)
     from .records import rule_snapshots_are_copies
